@@ -297,27 +297,32 @@ func cmdCheck(args []string) {
 			addFail(n, "expected obligation is no longer generated (code or contract shape changed)", nil)
 		}
 	}
-	// canaries
-	var canRun, canOK int
-	var canNotes []string
-	if !*nocanary && len(fails) == 0 {
-		canRun, canOK, canNotes = runCanaries(pc, *thorough)
-	}
 	// classify against known findings
 	known := readKnown()
 	var violations []*Failure
 	var knownLines []string
+	knownNames := map[string]bool{}
 	for _, f := range fails {
 		matched := false
 		for _, k := range known {
 			if k.Property == id && k.Status == "open" && k.Obligation == f.Name {
 				knownLines = append(knownLines, fmt.Sprintf("KNOWN-FINDING: property=%s %s (%s)", id, k.What, k.Obligation))
 				matched = true
+				knownNames[f.Name] = true
 			}
 		}
 		if !matched {
 			violations = append(violations, f)
 		}
+	}
+	// canaries (must-fail self test) run whenever there is no unexplained failure
+	var canRun, canOK int
+	var canNotes []string
+	if !*nocanary && len(violations) == 0 {
+		canRun, canOK, canNotes = runCanaries(pc, *thorough)
+	}
+	for n := range knownNames {
+		stretch[n] = true // known findings are reported separately and not counted as claimed obligations
 	}
 	for _, l := range knownLines {
 		fmt.Println(l)
@@ -335,7 +340,12 @@ func cmdCheck(args []string) {
 	selftestBroken := canRun > 0 && canOK < canRun
 	var extra []string
 	extra = append(extra, canNotes...)
-	writeEvidence(pc, tier, rr, fails, violations, &canaryStats{canRun, canOK}, time.Since(t0).Seconds(), extra)
+	pcEv := *pc
+	for n := range knownNames {
+		pcEv.Stretch = append(pcEv.Stretch, n)
+	}
+	extra = append(extra, knownLines...)
+	writeEvidence(&pcEv, tier, rr, fails, violations, &canaryStats{canRun, canOK}, time.Since(t0).Seconds(), extra)
 	// summary
 	nObl, nDis := 0, 0
 	for _, s := range rr.Summaries {
